@@ -358,8 +358,6 @@ class Weaver:
         if requires:
             spec += '    requires\n' + ''.join(_clause(n, e) for n, e in requires)
         ens = list(ensures)
-        if self.vacuity and not q.endswith('::__novac'):
-            ens = ens + [('vacuity.' + q, 'false')]
         if ens or ensures_raw:
             spec += '    ensures\n' + ''.join(_clause(n, e) for n, e in ens) + ensures_raw
         if decreases:
@@ -367,6 +365,9 @@ class Weaver:
         if no_unwind:
             spec += '    no_unwind\n'
         hd = ''
+        if self.vacuity:
+            # reachability of the function body under its preconditions and all assumed axioms: this assertion MUST fail
+            hd += '\n/*@OBL:vacuity.%s*/ proof { assert(false); }\n' % q
         if mutself:
             hd += ' let mut this = self;'
         if head:
